@@ -21,7 +21,8 @@ def load_job(job_path: Path, discard_id=True):
 
 
 def fix_deprecated(workpath: Path, fix: bool, cleanup: bool):
-    jobspath = workpath / "jobs"
+    # The links to the job folders are absolute paths
+    jobspath = workpath.absolute() / "jobs"
     logger.info("Looking for deprecated jobs in %s", jobspath)
 
     if cleanup:
